@@ -31,6 +31,8 @@ import sys
 import time
 
 P, C, T = 0, 1, 2
+ONLY = set(filter(None, os.environ.get("VX_ASMTAINT_ONLY", "").split(",")))
+SKIP = set(filter(None, os.environ.get("VX_ASMTAINT_SKIP", "").split(",")))
 NAMES = {P: "P", C: "C", T: "T"}
 
 
@@ -245,6 +247,8 @@ def step(arch, fn, ins, st, report):
                 report(fn, ins, "address", "memory operand %s uses register %s, which holds data-dependent bits" % (o.text, r))
 
     def wr(o, v, merge=False):
+        if o.kind == "sbmem" or (o.kind == "mem" and st.get(o.base, P) == C):
+            report(fn, ins, "static-write", "store into package-level assembly data (%s): state shared by every caller without synchronisation" % o.text)
         if o.kind == "reg":
             if v == C and merge:
                 v = P
@@ -454,7 +458,7 @@ def explore(arch, fn, instrs, report):
 
 def analyse(repo):
     t0 = time.time()
-    res = {"property": "C09", "part": "asm-taint", "tier": os.environ.get("VX_TIER", "quick"), "seed": int(os.environ.get("VX_SEED", "0") or 0),
+    res = {"property": os.environ.get("VX_ASMTAINT_PROP", "C09"), "part": os.environ.get("VX_ASMTAINT_PART", "asm-taint"), "tier": os.environ.get("VX_TIER", "quick"), "seed": int(os.environ.get("VX_SEED", "0") or 0),
            "shard": "0/1", "evaluations": 0, "distinct_nontrivial": 0, "states": 0, "transitions": 0, "traces_validated_against_impl": 0,
            "samples": [], "violations": [], "n_violations": 0, "exhaustive": True, "not_exhaustive_reason": [], "extra": {},
            "rule": "abstract taint machine over `go tool asm -S` listings of every .s file (amd64 + arm64): all reachable (pc, taint-vector) states by worklist; violation = conditional branch/CMOV/SET on tainted flags, tainted base/index register in a memory operand, gather or division on tainted data; one tainted branch site allowed in openAsm (tag verdict)",
@@ -469,6 +473,11 @@ def analyse(repo):
             if not f.endswith("_%s.s" % arch):
                 continue
             txt = open(os.path.join(d, f), errors="replace").read()
+            for m in re.finditer(r"^\s*GLOBL\s+([A-Za-z0-9_]+)<>\(SB\)\s*,\s*([^,$]*)", txt, re.M):
+                flags = m.group(2)
+                if "RODATA" not in flags and (not ONLY or "static-write" in ONLY):
+                    key = "asm:%s:%s:writable-static-data:%s" % (arch, f, m.group(1))
+                    vio.setdefault(key, {"key": key, "what": "%s declares package-level assembly data %s without RODATA (flags %r): writable state shared by all callers" % (f, m.group(1), flags.strip()), "case": {"file": f, "symbol": m.group(1)}, "count": 1})
             if "TEXT" not in txt:
                 continue  # include-only file (macros and data)
             try:
@@ -500,6 +509,10 @@ def analyse(repo):
                     tainted_branches = []
                 for kind, ins, why, sft in list(sites.values()):
                     if kind == "branch" and not tainted_branches:
+                        continue
+                    if ONLY and kind not in ONLY and not sft:
+                        continue
+                    if SKIP and kind in SKIP:
                         continue
                     if sft:
                         soft.append("%s %s %s: %s" % (arch, fn, ins.where, why))
